@@ -511,7 +511,20 @@ fn main() {
         match (&mut cur, t[0]) {
             (None, "D") => writeln!(out, "{}", do_detect(t[1])).unwrap(),
             (None, "A") => writeln!(out, "{}", do_addline(t[1], t[2], t[3], t[4], t[5])).unwrap(),
-            (None, "T") => writeln!(out, "{}", do_tags(t[1], &t[2..])).unwrap(),
+            (None, "T") => {
+                // every TagState has its own random hash seed: repeating the case exercises different iteration orders
+                let reps: usize = std::env::var("VPH_TAG_REPEAT").ok().and_then(|s| s.parse().ok()).unwrap_or(1);
+                let first = do_tags(t[1], &t[2..]);
+                let mut res = first.clone();
+                for _ in 1..reps {
+                    let again = do_tags(t[1], &t[2..]);
+                    if again != first {
+                        res = format!("T nondeterministic: {} <> {}", first, again);
+                        break;
+                    }
+                }
+                writeln!(out, "{}", res).unwrap()
+            }
             (None, "N") => writeln!(out, "{}", do_name(t[1])).unwrap(),
             (None, "L") => writeln!(out, "{}", do_lines(t[1])).unwrap(),
             (None, "R") => {
